@@ -1,6 +1,9 @@
 package sse
 
-import "io"
+import (
+	"io"
+	"net/http"
+)
 
 // Reference oracles, written from the specifications and independently of
 // go-sse's structure. They are executed by the same symbolic engine as the
@@ -155,6 +158,8 @@ type vhReader struct {
 	pos     int
 	endErr  error // error returned after the last byte (nil = io.EOF)
 	seg     bool  // fork over every chunk size (all segmentations); else one chunk
+	coarse  bool  // with seg: only chunk sizes {1, half of what fits, all that fits}
+	budget  int   // with coarse: number of reads that may still fork (then: all that fits)
 	eofWith bool  // return io.EOF / endErr together with the last bytes
 	reads   int
 	nread   int
@@ -179,7 +184,14 @@ func (r *vhReader) Read(p []byte) (int, error) {
 	}
 	n := maxn
 	if r.seg && maxn > 1 {
-		n = 1 + verifChoose("chunk", maxn)
+		if r.coarse {
+			if r.budget > 0 {
+				r.budget--
+				n = []int{maxn, (maxn + 1) / 2, 1}[verifChoose("chunk", 3)]
+			}
+		} else {
+			n = 1 + verifChoose("chunk", maxn)
+		}
 	}
 	copy(p, r.data[r.pos:r.pos+n])
 	r.pos += n
@@ -224,4 +236,16 @@ func vhEventsEqual(a, b []Event) bool {
 		r = verifAnd(r, verifAnd(a[i].LastEventID == b[i].LastEventID, verifAnd(a[i].Type == b[i].Type, a[i].Data == b[i].Data)))
 	}
 	return r
+}
+
+// vhNewConn builds a Connection through the public constructor, so that harnesses do not
+// depend on how the subscription tables are represented.
+func vhNewConn(cl *Client, req *http.Request) *Connection {
+	if cl == nil {
+		cl = &Client{}
+	}
+	if req == nil {
+		req = &http.Request{Method: "GET", Header: http.Header{}}
+	}
+	return cl.NewConnection(req)
 }
